@@ -110,38 +110,6 @@ func zzIsV4Mapped(b []byte) bool {
 	return b[10] == 0xff && b[11] == 0xff
 }
 
-func zzRefBE32(x uint32) []byte { return []byte{byte(x >> 24), byte(x >> 16), byte(x >> 8), byte(x)} }
-func zzRefBE64(x uint64) []byte {
-	return []byte{byte(x >> 56), byte(x >> 48), byte(x >> 40), byte(x >> 32), byte(x >> 24), byte(x >> 16), byte(x >> 8), byte(x)}
-}
-
-// zzRefAVP is the reference AVP encoder (RFC 6733 section 4.1).
-func zzRefAVP(code uint32, flags uint8, vendor uint32, payload []byte) []byte {
-	hdr := 8
-	if flags&0x80 != 0 {
-		hdr = 12
-	}
-	l := hdr + len(payload)
-	out := make([]byte, (l+3)&^3)
-	out[0], out[1], out[2], out[3] = byte(code>>24), byte(code>>16), byte(code>>8), byte(code)
-	out[4] = flags
-	out[5], out[6], out[7] = byte(l>>16), byte(l>>8), byte(l)
-	if hdr == 12 {
-		out[8], out[9], out[10], out[11] = byte(vendor>>24), byte(vendor>>16), byte(vendor>>8), byte(vendor)
-	}
-	copy(out[hdr:], payload)
-	return out
-}
-
-func zzBytesEq(a, b []byte, label string) {
-	vAssert(len(a) == len(b), label+" (length)")
-	if len(a) == len(b) {
-		for i := range a {
-			vAssert(a[i] == b[i], label)
-		}
-	}
-}
-
 // zzC01_avp: for every data type: NewAVP -> Serialize == reference image; DecodeAVP of the image gives
 // the same code / flags / vendor / typed value; serialising again yields identical bytes.
 func zzC01_avp() {
